@@ -3,7 +3,7 @@
    parsers for expressions, paths and closures are parameters: every theorem below holds for
    EVERY function in their place (so in particular for syn's), for every token list. *)
 From ASModel Require Import Base Tokens Report Ast IR Expand Parser FrontEnd.
-From ASProofs Require Import ParserP.
+From ASProofs Require Import ParserP FuelP.
 
 (* The macro never panics: neither the parser (expect / panic! / unreachable! / unwrap in
    field.rs, struct_pattern.rs, tuple.rs) nor the expander (root_field_name, tail_operations,
@@ -25,3 +25,27 @@ Theorem c13_accepted_tree_well_formed : forall regex join_ok parse_expr parse_pa
   parse_top_from regex join_ok parse_expr parse_path parse_closure fuel start ts = TOk v p -> tree_ok p = true.
 Proof. exact parse_top_ok. Qed.
 Print Assumptions c13_accepted_tree_well_formed.
+
+(* Termination: with fuel 4 * size + 4 (Parser.fuel_for) the parser never runs out of fuel, provided a
+   successful parse by one of syn's own parsers takes at least one token and at most those present
+   (checked on every table entry of every correspondence run).  Fork-and-reparse makes the number of
+   STEPS exponential in the nesting depth (measured: x2 per level of Some(..)); the fuel bounds the
+   DEPTH of the recursion, which is what termination needs. *)
+Theorem c13_terminates : forall regex join_ok parse_expr parse_path parse_closure,
+  (forall ts r, parse_expr ts = OOk r -> 1 <= eo_n r <= List.length ts) ->
+  (forall ts r, parse_path ts = OOk r -> 1 <= po_n r <= List.length ts) ->
+  (forall ts r, parse_closure ts = OOk r -> 1 <= co_n r <= List.length ts) ->
+  forall start ts, front_end_from regex join_ok parse_expr parse_path parse_closure start ts <> FEFuel.
+Proof. exact front_end_terminates. Qed.
+Print Assumptions c13_terminates.
+
+(* The front end is total: every token stream yields an expansion or a compile error attached to a span *)
+Theorem c13_total : forall regex join_ok parse_expr parse_path parse_closure,
+  (forall ts r, parse_expr ts = OOk r -> 1 <= eo_n r <= List.length ts) ->
+  (forall ts r, parse_path ts = OOk r -> 1 <= po_n r <= List.length ts) ->
+  (forall ts r, parse_closure ts = OOk r -> 1 <= co_n r <= List.length ts) ->
+  forall start ts,
+    (exists v p code, front_end_from regex join_ok parse_expr parse_path parse_closure start ts = FEOk v p code) \/
+    (exists sp, front_end_from regex join_ok parse_expr parse_path parse_closure start ts = FEErr sp).
+Proof. exact front_end_total. Qed.
+Print Assumptions c13_total.
